@@ -363,3 +363,57 @@ def lock_scopes(g, unwind=False):
                 continue
             work.append((m, out))
     return held_at
+
+
+# ----------------------------------------------------------------------
+# queue discipline (shared by C03 take_last/skip_last, C04 zip, C05 merge_all)
+_INS = {'push_back', 'push_front', 'push'}
+_REM = {'pop_back', 'pop_front', 'pop', 'remove', 'swap_remove', 'drain'}
+
+
+def queue_fields(cx):
+    """{(file, field): {method tail: [node desc]}} for every self-rooted container field that is both
+    filled and emptied with queue/stack methods somewhere in the crate"""
+    F = cx.facts
+    out = {}
+    for fn in F.fns.values():
+        if fn['kind'] in ('coroutine',):
+            continue
+        g = cx.graph(fn['key'], inline=False)
+        for n in g.nodes:
+            if n['kind'] != 'call' or not n['args']:
+                continue
+            tail = n['name'].rsplit('::', 1)[-1]
+            if tail not in _INS and tail not in _REM:
+                continue
+            if not n['name'].startswith(('std::collections::VecDeque', 'std::vec::Vec', 'smallvec::SmallVec')):
+                continue
+            root, steps = access_path(n['args'][0])
+            fields = [x for x in steps if not x.startswith(('@', '!', 'as ', '['))]
+            if not fields:
+                continue
+            out.setdefault((fn['file'], fields[-1]), {}).setdefault(tail, []).append('%s %s' % (g.loc(n), n['name']))
+    return {k: v for k, v in out.items() if (set(v) & _INS) and (set(v) & _REM)}
+
+
+def fifo_findings(cx, prop, rule, files):
+    """a container that is filled and emptied must be used first-in-first-out"""
+    res = []
+    for (file, field), ms in sorted(queue_fields(cx).items()):
+        if file not in files and not (cx.control and file.endswith('verif_controls.rs')):
+            continue
+        if cx.control and not file.endswith('verif_controls.rs'):
+            continue
+        names = set(ms)
+        lifo = None
+        for a, b in (('push_back', 'pop_back'), ('push_front', 'pop_front'), ('push', 'pop')):
+            if a in names and b in names:
+                lifo = (a, b)
+        key = '%s field `%s`' % (file, field)
+        if lifo:
+            res.append(Finding(prop, rule, key, False,
+                               'the queue is filled with %s and emptied with %s (last-in-first-out): items / waiting subscriptions leave in the reverse of their arrival order' % lifo,
+                               ms[lifo[1]][0].split(' ')[0], ms[lifo[0]][:1] + ms[lifo[1]][:1]))
+        else:
+            res.append(Finding(prop, rule, key, True, 'first-in-first-out (%s)' % ', '.join(sorted(names)), file))
+    return res
